@@ -253,25 +253,22 @@ Definition decreasing (n : N) : bool :=
 Definition succ_by (l : N) (n : N) : list N :=
   map (fun p => encode (snd p)) (filter (fun p => fst p =? l) (next_l (decode n))).
 
-Fixpoint add_all (xs acc : list N) : list N :=
-  match xs with [] => acc | x :: xs' => if memN x acc then add_all xs' acc else add_all xs' (x :: acc) end.
-
 (* closure under internal steps *)
-Fixpoint tau_closure (fuel : nat) (todo acc : list N) : list N :=
+Fixpoint tau_closure (fuel : nat) (todo : list N) (seen : PS.t) (acc : list N) : list N :=
   match fuel with
   | O => acc
   | S f => match todo with
            | [] => acc
-           | x :: todo' => if memN x acc then tau_closure f todo' acc
-                           else tau_closure f (succ_by LTau x ++ todo') (x :: acc)
+           | x :: todo' => if PS.mem (key x) seen then tau_closure f todo' seen acc
+                           else tau_closure f (succ_by LTau x ++ todo') (PS.add (key x) seen) (x :: acc)
            end
   end.
 
 Definition after (S : list N) (l : N) : list N :=
-  tau_closure 100000 (flat_map (succ_by l) S) [].
+  tau_closure (N.to_nat 100000) (flat_map (succ_by l) S) PS.empty [].
 
 Definition run_schedule (ext stop : N) (sched : list N) : list N :=
-  fold_left after sched (tau_closure 100000 [encode (init_st ext stop)] []).
+  fold_left after sched (tau_closure (N.to_nat 100000) [encode (init_st ext stop)] PS.empty []).
 
 (* what the harness can see once everything it started has come to rest *)
 Record observation := mkObs {
